@@ -112,7 +112,9 @@ MBody(sk, p, d, u) ==
 MProg(sk) == IF ParDepth(sk) = 0 THEN Body(sk, 0, <<>>) ELSE MBody(sk, ParDepth(sk), 0, <<>>)
 MProgs == [s \in 1..Len(Skeletons) |-> MProg(Skeletons[s])]
 
-Cells(sk) == {c \in [1..Len(sk.shape) -> 1..9] : \A m \in 1..Len(sk.shape) : c[m] <= sk.shape[m]}
+RECURSIVE Vecs(_, _)      \* index vectors of the first n axes of extents e
+Vecs(e, n) == IF n = 0 THEN {<<>>} ELSE {Append(v, i) : v \in Vecs(e, n - 1), i \in 1..e[n]}
+Cells(sk) == Vecs(sk.shape, Len(sk.shape))
 InitOut(sk) == [c \in Cells(sk) |-> IF sk.outinit = "zero" THEN Zero ELSE <<G>>]
 UndefAccs(sk) == [a \in 1..Len(sk.accs) |-> <<<<Undef>>, <<Undef>>>>]
 
@@ -140,8 +142,18 @@ RefOut(sk, cgv) == SeqExec(Body(sk, 0, <<>>), 1, [acc |-> UndefAccs(sk), out |->
 RefTab == [s \in 1..Len(Skeletons) |-> [c \in {"seq", "lanes"} |-> RefOut(Skeletons[s], c)]]
 
 (* ------------------------------------------------------------------ the state machine *)
+\* tables (constant level: evaluated once by TLC)
+ParDepths == [s \in 1..Len(Skeletons) |-> ParDepth(Skeletons[s])]
+CellTab == [s \in 1..Len(Skeletons) |-> Cells(Skeletons[s])]
+\* body of the parallel loop per (outer vector, parallel index)
+TBodies == [s \in 1..Len(Skeletons) |->
+             IF ParDepths[s] = 0 THEN <<>>
+             ELSE [v \in Vecs(Skeletons[s].ext, ParDepths[s]) |-> Body(Skeletons[s], ParDepths[s], v)]]
+InBounds(sk, ops) == \A n \in 1..Len(ops) : ops[n].op \in {"store", "outadd"} => ops[n].cell \in Cells(sk)
+InBoundsTab == [s \in 1..Len(Skeletons) |-> InBounds(Skeletons[s], Body(Skeletons[s], 0, <<>>))]
+
 SK == Skeletons[ski]
-P  == ParDepth(SK)
+P  == ParDepths[ski]
 MP == MProgs[ski]
 IsShared(a) == SK.accs[a].init < P
 Idle == [x |-> 0, ip |-> 0]
@@ -194,7 +206,7 @@ RunPriv(ops, ip, l) ==
 \* a working thread performs its next access to shared state (with the private work around it)
 Step(t) ==
   /\ active /\ th[t].x # 0
-  /\ LET ops == Body(SK, P, Append(ru, th[t].x))
+  /\ LET ops == TBodies[ski][Append(ru, th[t].x)]
          r1 == RunPriv(ops, th[t].ip, loc[t]) IN
      IF r1.ip > Len(ops)
      THEN /\ th' = [th EXCEPT ![t] = Idle]
@@ -225,12 +237,7 @@ Done == ~active /\ mp > Len(MP)
 
 (* ------------------------------------------------------------------ properties *)
 \* every write lands inside the output array
-StoresInBounds ==
-  \A n \in 1..Len(MP) : MP[n].op \in {"store", "outadd"} => MP[n].cell \in Cells(SK)
-ThreadStoresInBounds ==
-  \A t \in 1..MaxT : th[t].x # 0 =>
-     LET ops == Body(SK, P, Append(ru, th[t].x)) IN
-       \A n \in 1..Len(ops) : ops[n].op \in {"store", "outadd"} => ops[n].cell \in Cells(SK)
+StoresInBounds == InBoundsTab[ski]
 
 \* C09: the result does not depend on the interleaving, on the claim order or on the number of threads:
 \* every terminal state holds the result of the one-thread, program-order execution
@@ -238,7 +245,7 @@ ScheduleIndependent == Done => out = RefTab[ski][cg]
 
 \* C09: no cell of the output still holds (or was computed from) the garbage the buffer started with,
 \* and no accumulator was read before it was initialised
-NoGarbageLeft == Done => \A c \in Cells(SK) : ~HasJunk(out[c])
+NoGarbageLeft == Done => \A c \in CellTab[ski] : ~HasJunk(out[c])
 
 \* NOT part of C09 (reported for information): with fastmath the bits depend on the association chosen by
 \* the compiler, i.e. reproducibility is per build (same numba/LLVM/CPU), not across builds
